@@ -9,18 +9,21 @@ namespace VirVerif
 
 /-- dependence functions used by the doubles.
 `chained a b d` is `(a + b*x) / d(x)`: a dependence function that takes another dependence
-function as parameter and evaluates it at the same `x`. -/
+function as parameter and evaluates it at the same `x`; `ratio a n d` is `(a + n(x)) / d(x)` with
+two dependence functions as parameters. -/
 inductive DepFn (α : Type) where
   | const (a : α)
   | affine (a b : α)
   | asym (a b c : α)
   | chained (a b : α) (d : DepFn α)
+  | ratio (a : α) (n d : DepFn α)
 
 def DepFn.eval {α} [Add α] [Mul α] [Div α] [OfNat α 1] : DepFn α → α → α
   | .const a, _ => a
   | .affine a b, x => a + b * x
   | .asym a b c, x => a + b / (1 + c * x)
   | .chained a b d, x => (a + b * x) / d.eval x
+  | .ratio a n d, x => (a + n.eval x) / d.eval x
 
 /-- a parameter of a (conditional) distribution: fixed value or dependence function of the
 conditioning value -/
